@@ -23,13 +23,14 @@ type vpSvcWallet struct {
 	temp    bool
 	n       byte // addresses generated
 	secrets bool // secrets present in the clear
+	seed    byte // stands for the seed: wallets with the same seed have the same fingerprint
 }
 
 func (w *vpSvcWallet) Filename() string    { return w.id }
 func (w *vpSvcWallet) IsEncrypted() bool   { return w.enc }
 func (w *vpSvcWallet) IsTemp() bool        { return w.temp }
 func (w *vpSvcWallet) Type() string        { return WalletTypeDeterministic }
-func (w *vpSvcWallet) Fingerprint() string { return "fp-" + w.id }
+func (w *vpSvcWallet) Fingerprint() string { return "fp-" + string([]byte{w.seed}) }
 func (w *vpSvcWallet) SetLabel(l string) {
 	w.label = 0
 	if len(l) > 0 {
@@ -94,6 +95,16 @@ func (w *vpSvcWallet) bytes() []byte {
 
 var vpSvcDisk map[string][]byte
 
+// wallet construction from a seed (key derivation is C16/C17): a fresh stand-in
+var vpSvcNewSeed byte
+
+func vpModelSvcCreateWallet(serv *Service, wltName string, options Options) (Wallet, error) {
+	if vpBool("createFails") {
+		return nil, errVpSvc
+	}
+	return &vpSvcWallet{id: wltName, seed: vpSvcNewSeed, secrets: true, n: 1}, nil
+}
+
 // file.SaveBinary: all or nothing (C20)
 func vpModelSvcSaveBinary(filename string, data []byte, mode interface{}) error {
 	if vpBool("saveFails") {
@@ -105,18 +116,20 @@ func vpModelSvcSaveBinary(filename string, data []byte, mode interface{}) error 
 func vpModelSvcIsWritable(name string) bool { return vpBool("fileWritable") }
 
 //vp:prop C19
-//vp:bounds one wallet (encrypted or not, temporary or not, free label and address count) loaded from its file; one service operation out of: label change, encrypt, decrypt, new addresses, Update and UpdateSecrets with a callback that modifies the copy and succeeds or fails; free password presence; every step (callback, lock, unlock, generation, serialisation, file save, writability probe) may fail
+//vp:bounds one wallet (encrypted or not, temporary or not, free label and address count) loaded from its file; one service operation out of: creation of a second wallet (same or new file name, same or new seed), label change, encrypt, decrypt, new addresses, Update and UpdateSecrets with a callback that modifies the copy and succeeds or fails; free password presence; every step (callback, lock, unlock, generation, serialisation, file save, writability probe) may fail
 //vp:assume the wallet implementation is a stand-in with the Lock/Unlock/Clone contract of the real ones (C18); its file form is a bijection of its persistent state (JSON is not executed); file.SaveBinary is all-or-nothing (C20)
+//vp:rule (*github.com/skycoin/skycoin/src/wallet.Service).createWallet model:vpModelSvcCreateWallet
 //vp:rule github.com/skycoin/skycoin/src/util/file.SaveBinary model:vpModelSvcSaveBinary
 //vp:rule github.com/skycoin/skycoin/src/util/file.IsWritable model:vpModelSvcIsWritable
 //vp:noreplay wallet and file system are stand-ins
 func vpH_C19_UpdateProtocol() {
 	const id = "w.wlt"
-	w0 := &vpSvcWallet{id: id, label: vpU8("label"), enc: vpBool("encrypted"), temp: vpBool("temporary"), n: vpU8("addresses")}
+	w0 := &vpSvcWallet{id: id, seed: 'A', label: vpU8("label"), enc: vpBool("encrypted"), temp: vpBool("temporary"), n: vpU8("addresses")}
 	vpAssume(w0.n < 200)
 	w0.secrets = !w0.enc
 	serv := &Service{wallets: Wallets{}, fingerprints: map[string]string{}, config: Config{WalletDir: "", EnableWalletAPI: true}}
 	serv.wallets[id] = w0.Clone()
+	serv.fingerprints[w0.Fingerprint()] = id
 	vpSvcDisk = map[string][]byte{}
 	if !w0.temp {
 		vpSvcDisk[id] = w0.bytes() // what the service was loaded from
@@ -134,7 +147,12 @@ func vpH_C19_UpdateProtocol() {
 	}
 
 	var err error
-	switch vpLen("operation", 0, 5) {
+	op := vpLen("operation", 0, 6)
+	if op == 6 {
+		vpC19Create(serv, w0)
+		return
+	}
+	switch op {
 	case 0:
 		err = serv.UpdateWalletLabel(id, "L")
 	case 1:
@@ -171,4 +189,32 @@ func vpH_C19_UpdateProtocol() {
 		vpAssert(!mem.secrets, "encrypted_wallet_in_memory_holds_no_clear_secrets")
 	}
 	vpReach("succeeded")
+}
+
+// creation of another wallet next to the loaded one
+func vpC19Create(serv *Service, w0 *vpSvcWallet) {
+	name := [2]string{"w.wlt", "x.wlt"}[vpLen("newName", 0, 1)]
+	vpSvcNewSeed = [2]byte{'A', 'B'}[vpLen("newSeed", 0, 1)]
+	got, err := serv.CreateWallet(name, Options{})
+	mem, ok := serv.wallets[w0.id].(*vpSvcWallet)
+	vpAssert(ok && bytes.Equal(mem.bytes(), w0.bytes()) && mem.seed == 'A', "existing_wallet_untouched_by_a_creation")
+	disk, onDisk := vpSvcDisk[w0.id]
+	other, otherOnDisk := vpSvcDisk["x.wlt"]
+	if err != nil {
+		vpAssert(got == nil && len(serv.wallets) == 1, "failed_creation_leaves_memory_unchanged")
+		if w0.temp {
+			vpAssert(!onDisk, "failed_creation_leaves_the_files_unchanged")
+		} else {
+			vpAssert(onDisk && bytes.Equal(disk, w0.bytes()), "failed_creation_leaves_the_files_unchanged")
+		}
+		vpAssert(!otherOnDisk, "failed_creation_leaves_the_files_unchanged")
+		vpReach("create-failed")
+		return
+	}
+	vpAssert(name == "x.wlt" && vpSvcNewSeed == 'B', "duplicate_name_or_seed_is_refused")
+	nw, ok2 := serv.wallets["x.wlt"].(*vpSvcWallet)
+	vpAssert(ok2 && len(serv.wallets) == 2, "created_wallet_is_loaded")
+	vpAssert(otherOnDisk && bytes.Equal(other, nw.bytes()), "memory_equals_what_a_fresh_service_would_load")
+	vpAssert(serv.fingerprints[nw.Fingerprint()] == "x.wlt" && serv.fingerprints[w0.Fingerprint()] == w0.id, "fingerprints_registered")
+	vpReach("created")
 }
